@@ -180,6 +180,66 @@ theorem replicas_disjoint (es : List Event) (hwf : ∀ e ∈ es, e.WF) (g : Name
     (ha : pick (run es) g s r₁ = .node a) (hb : pick (run es) g s r₂ = .node b) : a ≠ b :=
   replicas_disjoint_of_nodup _ (nodes_exact es hwf).1 g s r₁ r₂ a b hr h₁ h₂ ha hb
 
+/-- `LocateAll` on the canonical state: asking for `copies ≤ |live nodes|` copies of a shard of the topology yields
+    exactly `copies` pairwise distinct live nodes. -/
+theorem locateAll_distinct {T : Topo} {st : Sel} (hc : Canon T st) (g : Name) (s copies : Nat)
+    (hs : s < T.shards g) (hcop : copies ≤ st.nodes.length) (hn : st.nodes ≠ []) :
+    ∃ l, locateAll st g s copies = .ok l ∧ l.length = copies ∧ l.Nodup ∧ ∀ n ∈ l, T.node n = true := by
+  have hk : ({ group := g, shard := s, replicas := T.replicas g } : Key) ∈ st.lookup :=
+    (hc.lookup_mem _).mpr ⟨hs, rfl⟩
+  obtain ⟨i, hi, hik⟩ := List.mem_iff_getElem.mp hk
+  have hg : st.lookup[i].group = g := by rw [hik]
+  have hsh : st.lookup[i].shard = s := by rw [hik]
+  have hpos : 0 < st.nodes.length := List.length_pos_iff.mpr hn
+  have hnd := nodes_nodup hc.nodes_sorted
+  let f : Nat → Name := fun r => st.nodes.getD ((i + r) % st.nodes.length) []
+  have hpick : ∀ r, pick st g s r = .node (f r) := fun r => pick_of_mem hc.lookup_sorted hn hi hg hsh r
+  have hrs : (List.range copies).map (pick st g s) = (List.range copies).map (fun r => PickResult.node (f r)) :=
+    List.map_congr_left (fun r _ => hpick r)
+  have hfind : ((List.range copies).map (fun r => PickResult.node (f r))).find? (fun p => p.node?.isNone) = none := by
+    rw [List.find?_eq_none]
+    intro x hx
+    obtain ⟨r, _, rfl⟩ := List.mem_map.mp hx
+    simp [PickResult.node?]
+  have hfm : ((List.range copies).map (fun r => PickResult.node (f r))).filterMap PickResult.node? =
+      (List.range copies).map f := by
+    rw [List.filterMap_map]
+    induction (List.range copies) with
+    | nil => rfl
+    | cons a as ih => simp [PickResult.node?, ih]
+  have hnames : ((List.range copies).map f).Nodup := by
+    rw [List.nodup_iff_pairwise_ne, List.pairwise_map]
+    have hr : (List.range copies).Pairwise (fun a b => a < b ∧ b < copies) := by
+      have h1 : (List.range copies).Pairwise (fun a b => a < b) := List.pairwise_lt_range
+      rw [List.pairwise_iff_getElem] at h1 ⊢
+      intro a b ha hb hab
+      refine ⟨h1 a b ha hb hab, ?_⟩
+      have := List.getElem_mem hb
+      exact List.mem_range.mp this
+    refine hr.imp ?_
+    intro a b ⟨hab, hb⟩ e
+    have := getD_inj_of_nodup hnd (Nat.mod_lt _ hpos) (Nat.mod_lt _ hpos) e
+    have := add_mod_inj (by omega) (by omega) this
+    omega
+  refine ⟨sortBy lexLt ((List.range copies).map f), ?_, ?_, ?_, ?_⟩
+  · simp only [locateAll]
+    rw [hrs, hfind, hfm, dedup_of_nodup hnames]
+  · rw [length_sortBy, List.length_map, List.length_range]
+  · apply nodes_nodup
+    apply sortBy_strict lexLt lexLt_trans
+    rw [List.nodup_iff_pairwise_ne] at hnames
+    exact hnames.imp (fun {a b} hab => lexLt_total hab)
+  · intro n hnm
+    rw [mem_sortBy] at hnm
+    obtain ⟨r, _, rfl⟩ := List.mem_map.mp hnm
+    exact (hc.nodes_mem _).mp (getD_mem (Nat.mod_lt _ hpos))
+
+theorem locateAll_total (es : List Event) (hwf : ∀ e ∈ es, e.WF) (g : Name) (s copies : Nat)
+    (hs : s < (topoOf es).shards g) (hpos : 0 < copies) (hcop : copies ≤ (run es).nodes.length) :
+    ∃ l, locateAll (run es) g s copies = .ok l ∧ l.length = copies ∧ l.Nodup ∧ ∀ n ∈ l, (topoOf es).node n = true :=
+  locateAll_distinct (selector_canonical es hwf) g s copies hs hcop
+    (fun e => by rw [e] at hcop; simp at hcop; omega)
+
 /-! ### non-vacuity: a concrete history with churn, a repeated add, a remove of an absent node, an update that
     changes the shard count, a delete and a re-initialisation -/
 
@@ -204,6 +264,7 @@ example : run sampleEs =
     { lookup := [⟨gA, 0, 1⟩, ⟨gA, 1, 1⟩, ⟨gB, 0, 1⟩, ⟨gB, 1, 1⟩], nodes := [n1, n3] } := by decide
 example : pick (run sampleEs) gB 1 0 = .node n3 ∧ pick (run sampleEs) gB 1 1 = .node n1 := by decide
 example : (topoOf sampleEs).shards gB = 2 ∧ (topoOf sampleEs).node n3 = true := by decide
+example : (locateAll (run sampleEs) gB 1 2).toOption = some [n1, n3] := by decide
 
 /-! ## 5. finding F4 — `AddNode` as written at the pinned commit -/
 
